@@ -33,6 +33,9 @@ static void fill_file_cfg(Rng &g, Scn &s, int maxT, int maxChunks) {
   long len = chunks * ch + (g.chance(0.3) ? 0 : (long)g.below(ch));
   if (g.chance(0.15)) len = std::max<long>(0, chunks * ch - 1 - (long)g.below(16));   // body exact chunk multiple
   s.i["len"] = len;
+  // the decrypt (and verify) of the stored / faulted file runs under a schedule of its own
+  pick_sched(g, s, 2, T, true);
+  pick_sched(g, s, 1, 1, false);
 }
 
 static long file_len(const Scn &s) {
